@@ -51,9 +51,13 @@ var Atoms = []string{
 	".", "..", "%2e", "%2E", "%2e.", ".%2E", "%2e%2E", "/.", "/..", "/./", "/../", "...", "%2f", "%5c",
 	// drive letters
 	"C:", "c|", "C|", "C|/", "/C:", "/c|/", "C:\\", "Z:", "/a/C:/..", "/C:/..", "/a/C|/../",
+	// ... and the neighbours of the ASCII letters, which are not drive letters ('@' 'A'..'Z' '[' ... '`' 'a'..'z' '{')
+	"@:", "[:", "_:", "`|", "{:", "^:", "]|", "/_:/..", "/[:/..", "/@|/../", "/{:/..", "1:", "/1|/..",
 	// percent escapes
 	"%", "%4", "%41", "%00", "%zz", "%2", "%25", "%2541", "%g1", "%C3%A9", "%FF", "%E2%82", "%20", "%09", "%0A", "%7f", "%80",
 	"%5B", "%5D", "%3A", "%2F", "%40", "%23", "%3F", "%3a",
+	// ... and the neighbours of the hex digits ('/' '0'..'9' ':', '@' 'A'..'F' 'G', '`' 'a'..'f' 'g')
+	"%G1", "%1G", "%1g", "%@1", "%1@", "%`a", "%a`", "%:0", "%0:", "%/0", "%0/",
 	// ports
 	"80", "443", "21", "0", "00080", "65535", "65536", "99999999999999999999999999", ":80", ":443", ":0", ":", ":21", "8080", "+80", "-1",
 	// IPv4 shapes
@@ -239,7 +243,8 @@ func Noise(t *rapid.T, label, s string) string {
 var refShapes = []string{"./d:/..", "a/C:/../x", "/a/b/c:/..", "\u212aa:x", "f\u0130le:x", "\u017f:x", "", "#", "#f", "?", "?q", "?q#f", "/", "/p", "/p/q?x#y", "//", "//h", "//h/p", "//h:81/p", "//u:p@h/p", "\\\\h", "\\\\h\\p", "/\\h", "\\/h",
 	"p", "p/q", "./", "./p", "../", "..", "../..", "../../x", ".", "./.", "a/../b", "%2e%2e/x", ".%2E/", "C|/x", "C:", "c:/x", "/C|/x", "/c:", "C|", "C|\\x", "//C|/x", "///x", "////x",
 	"?#", "#?", " ", "\t", "x y", ";p", "a:", ":a", "1:", "/..", "/../..", "/./", "//h?q", "//h#f", "//@", "//:80", "//[::1]", "//1.2.3.4", "//h\\p", "\\", "\\p", "/\\", "\\\\", "//h:", "?\xff", "#\xff", "p\x00",
-	"file:", "file:p", "file:/p", "file://h/p", "file:C|/x", "file:..", "file:?q", "file:#f", "file:\\\\h"}
+	"file:", "file:p", "file:/p", "file://h/p", "file:C|/x", "file:..", "file:?q", "file:#f", "file:\\\\h",
+	"_:/..", "/^:/../x", "/[:/..", "/`|/..", "/{:/../y", "/@:/..", "/1:/.."}
 
 // Ref draws a reference; baseScheme (may be "") is used for "same scheme" shapes.
 func Ref(t *rapid.T, label string, baseScheme string) string {
@@ -394,7 +399,7 @@ func BaseString(t *rapid.T, label string) string {
 }
 
 // ExtremeStarts are structurally extreme parseable URLs.
-var ExtremeStarts = []string{"a:b", "a:b ?q#f", "a:b  #f", "a: ", "data:x ?", "a:b ?#", "a:b  ?&&", "a:b ?&#f", "foo:o  ?=", "foo://", "foo://h", "foo:/.//p", "foo:/p", "foo:///x", "foo://h/p?q#f", "file:///C:/", "file:///C:/a/b", "file://h/C|/", "file:///", "file:", "file://h",
+var ExtremeStarts = []string{"a:b", "a:b ?q#f", "a:b  #f", "a: ", "data:x ?", "a:b ?#", "a:b  ?&&", "a:b ?&#f", "foo:o  ?=", "foo://", "foo://h", "foo:/.//p", "foo:/p", "foo:///x", "foo://h/p?q#f", "file:///C:/", "file:///C:/a/b", "file://h/C|/", "file:///", "file:", "file://h", "file:///_:/a/b", "file:///[:/", "file:///^:/a",
 	"file:///c:/..", "http://u:p@h:81/p?q#f", "https://1.2.3.4/", "http://[::1]:8/", "http://h", "http://h/a/b/c/d?x#y", "ws://h:81/", "wss://u@h/", "ftp://h:22/p", "http://h/?", "http://h/#", "http://h/?#",
 	"data:text/plain,hi", "mailto:a@b", "javascript:alert(1) ", "blob:http://h/x", "about:blank", "sc://é/", "sc:// /", "non-special:x/?#", "a:/", "a://", "a:/.//", "a:/..//x", "http://xn--nxasmq6b/", "http://h//a//", "file:///C|/x", "foo://h:0/", "http://h:0/"}
 
@@ -441,7 +446,7 @@ var userVals = []string{"", "u", "user", "a b", "a:b", "a@b", "a/b", "é", "%41"
 var hostVals = []string{"localhost.", "", "h", "example.com", "EXAMPLE.com", "h:82", "h:", ":83", "h:80", "h:443", "h:65536", "h:8x", "1.2.3.4", "0x7f.1", "1.2.3.256", "[::2]", "[::2]:84", "[::2", "[[::2]]", "[::2]]", "localhost", "LocalHost",
 	"a b", "a%20b", "a/b", "a?b", "a#b", "a\\b", "a@b", "u@h", "h/p", "h?q", "h#f", "xn--", "é", "x:y", " h", "h ", "\th", "%00", "a<b", "C:", "c|", "+1", "-1", "1.2.3.4.5", "0x", "a.0", "a.1.", "..", "a..", "%2e", "h:00085", "h:99999999999999999999", "\xff", "[1::8]x", "h:81/p", "h:81?q"}
 var portVals = []string{"", "0", "80", "443", "21", "8080", "65535", "65536", "00080", "8a", "a8", "-1", "+1", " 80", "80 ", "99999999999999999999", "8/0", "8?0", "8#0", "8\\0", "٨", "\t80", "8\n0", "0x50", "443x", ":80", "1 2"}
-var pathVals = []string{"/a/C:/../x", "/a/b/d:/..", "a/C|/../y", "/x/c:/../../z", "", "/", "a", "/a", "/a/b", "//", "//x", "/.//x", "/..", "/../a", ".", "..", "/%2e", "/%2E%2e/x", "a b", "/a b", "?", "#", "/a?b", "/a#b", "\\", "\\a\\b", "/C|/x", "C|", "/c:/..", "é", "%", "%zz", "/\x00", "/\xff", "/{}`\"<>", "/a/./b/../c", "///", " /", "/ ", "\t/x", "/x\n"}
+var pathVals = []string{"/_:/..", "/^|/../x", "/[:/..", "/{:/..", "/@:/..", "/a/C:/../x", "/a/b/d:/..", "a/C|/../y", "/x/c:/../../z", "", "/", "a", "/a", "/a/b", "//", "//x", "/.//x", "/..", "/../a", ".", "..", "/%2e", "/%2E%2e/x", "a b", "/a b", "?", "#", "/a?b", "/a#b", "\\", "\\a\\b", "/C|/x", "C|", "/c:/..", "é", "%", "%zz", "/\x00", "/\xff", "/{}`\"<>", "/a/./b/../c", "///", " /", "/ ", "\t/x", "/x\n"}
 var searchVals = []string{"", "?", "q", "?q", "??q", "a=b", "?a=b&c=d", "a b", "a+b", "'", "\"<>", "#", "a#b", "%41", "%", "%zz", "é", "\xff", "\x00", "\ta", "a\nb", "&", "=", "a=b=c", "&&a", " ", "?a ", "%2B%26", "`{}", "/?"}
 var hashVals = []string{"", "#", "f", "#f", "##f", "a b", "\"<>`", "{}", "%41", "%", "%zz", "é", "\xff", "\x00", "\tf", "f\nx", "?", "/", " ", "#f ", "'|^"}
 
